@@ -37,7 +37,7 @@ func runC14(c *eng.Ctx) {
 		{T: "pkg/encoding.DeltaBitPackingEncoder", Entries: []string{"pkg/encoding.DeltaBitPackingEncoder.Reset"}, Ctors: []string{"pkg/encoding.NewDeltaBitPackingEncoder"}},
 		{T: "pkg/encoding.DeltaBitPackingDecoder", Entries: []string{"pkg/encoding.DeltaBitPackingDecoder.Reset"}, Ctors: []string{"pkg/encoding.NewDeltaBitPackingDecoder"}},
 		{T: "pkg/encoding.FixedOffsetEncoder", Entries: []string{"pkg/encoding.FixedOffsetEncoder.Reset", "pkg/encoding.FixedOffsetEncoder.FromValues"}, Ctors: []string{"pkg/encoding.NewFixedOffsetEncoder"}},
-		{T: "pkg/encoding.FixedOffsetDecoder", Entries: []string{"pkg/encoding.FixedOffsetDecoder.Unmarshal"}, Ctors: []string{"pkg/encoding.NewFixedOffsetDecoder"}},
+		{T: "pkg/encoding.FixedOffsetDecoder", Entries: []string{"pkg/encoding.FixedOffsetDecoder.Unmarshal"}, Ctors: []string{"pkg/encoding.NewFixedOffsetDecoder"}, AllExits: true},
 		{T: "pkg/stream.BufferWriter", Entries: []string{"pkg/stream.BufferWriter.Reset"}, Ctors: []string{"pkg/stream.NewBufferWriter"}},
 		{T: "pkg/stream.Reader", Entries: []string{"pkg/stream.Reader.Reset"}, Ctors: []string{"pkg/stream.NewReader"}},
 		{T: "pkg/bufioutil.Buffer", Entries: []string{"pkg/bufioutil.Buffer.SetBuf"}, Ctors: []string{"pkg/bufioutil.NewBuffer"}},
@@ -111,6 +111,17 @@ func runC14(c *eng.Ctx) {
 			if n == 0 {
 				c.Check(false, "getter-used:"+getter.fn, nil, gf, "the pool getter has call sites", "none found")
 			}
+		}
+	})
+
+	// the long-lived snappy reader starts every chunk from a clean context, also after a chunk that failed
+	c.Rule("PASS", "pkg/compress.snappyReader.Uncompress{context reset on every exit}", func() {
+		f := c.Fn("pkg/compress.snappyReader.Uncompress")
+		for _, x := range []struct{ recv, m, what string }{
+			{".compressed", "Reset", "the input buffer"}, {".decompressed", "Reset", "the output buffer"}, {".reader", "Reset", "the s2 reader (drops a sticky decode error)"},
+		} {
+			ok, how := passesOnEveryExit(p, f, invokeOn(x.recv, x.m))
+			c.Check(ok, "reset"+x.recv, nil, f, x.what+" is reset on every exit of Uncompress, failing exits included (one damaged chunk does not poison the chunks that follow)", how)
 		}
 	})
 
